@@ -46,6 +46,8 @@ def classes():
         touch = Property('where attachments are read', StringType(), default='never')
         fail = Property('where to fail', StringType(), default='')
         p = Parameter('configured parameter', FloatRange(), default=0, readonly=False)
+        q = Parameter('second configured parameter', FloatRange(), default=0, readonly=False)
+        wfail = Property('which write method fails', StringType(), default='')
 
         def _touch(self):
             for attr in ('a1', 'a2'):
@@ -82,7 +84,15 @@ def classes():
             super().shutdownModule()
 
         def write_p(self, value):
-            EV.append(('write', self.name, value))
+            EV.append(('write', self.name, value, 'p'))
+            if self.wfail == 'p':
+                raise HardwareError(f'{self.name} can not write p')
+            return value
+
+        def write_q(self, value):
+            EV.append(('write', self.name, value, 'q'))
+            if self.wfail == 'q':
+                raise HardwareError(f'{self.name} can not write q')
             return value
 
     class Poll(Mixin, Readable):
@@ -150,6 +160,11 @@ def classes():
     class WithIo(HasIO, Mixin, Readable):
         ioClass = Io
 
+        def _touch(self):
+            super()._touch()
+            t = self.io         # the communicator (given by name or created from the uri) is an attachment as well
+            EV.append(('attach', self.name, 'io', t.name, bool(t.earlyInitDone), bool(t.initModuleDone)))
+
         def read_value(self):
             EV.append(('read', self.name))
             return 1.0
@@ -183,9 +198,11 @@ def build_cfg(case):
     cfg = {}
     for name, m in case['modules'].items():
         d = {'cls': C[m['cls']]}
-        for k in ('a1', 'a2', 'a3', 'touch', 'fail', 'uri', 'io'):
+        for k in ('a1', 'a2', 'a3', 'touch', 'fail', 'uri', 'io', 'wfail'):
             if m.get(k):
                 d[k] = m[k]
+        if m.get('q') is not None:
+            d['q'] = {'value': m['q']}
         if 'export' in m:
             d['export'] = m['export']
         if m.get('p') is not None:
@@ -330,15 +347,20 @@ def judge(case, ev, out, x):
             viol.append(('attached-module-not-initialised', f'{e[1]}.{e[2]} got {e[3]} with earlyInitDone={e[4]} initModuleDone={e[5]}'))
     for n in names:
         m = mods.get(n, {})
-        w = [i for i, e in enumerate(ev) if e[0] == 'write' and e[1] == n]
         first = [i for i, e in enumerate(ev) if e[0] in ('read', 'poll') and e[1] == n]
-        if m.get('p') is not None:
+        for pname in ('p', 'q'):
+            # (a write method that raises has still been called: the start value was handed to the driver)
+            w = [i for i, e in enumerate(ev) if e[0] == 'write' and e[1] == n and e[3] == pname]
+            if m.get(pname) is None:
+                continue
+            other_fails = ':another-write-of-the-module-failed' if m.get('wfail') and m['wfail'] != pname else ''
             if len(w) != 1:
-                viol.append(('configured-value-written-%s' % ('never' if not w else 'more-than-once'), f'module {n}: write_p called {len(w)} times'))
+                viol.append(('configured-value-written-%s%s' % ('never' if not w else 'more-than-once', other_fails),
+                             f'module {n}: write_{pname} called {len(w)} times'))
             elif first and w[0] > first[0]:
-                viol.append(('configured-value-written-after-first-poll', f'module {n}: write@{w[0]} first poll@{first[0]}'))
+                viol.append(('configured-value-written-after-first-poll' + other_fails, f'module {n}: write_{pname}@{w[0]} first poll@{first[0]}'))
             elif ready is not None and w[0] > ready:
-                viol.append(('ready-before-configured-write', f'module {n}: write@{w[0]} ready@{ready}'))
+                viol.append(('ready-before-configured-write' + other_fails, f'module {n}: write_{pname}@{w[0]} ready@{ready}'))
         if m.get('cls') in ('Poll', 'WithIo') and ready is not None:
             if not first or first[0] > ready:
                 viol.append(('ready-before-first-poll-round', f'module {n}: first read@{first[:1]} ready@{ready}'))
@@ -416,6 +438,24 @@ SPECIAL = [
     ('two-pollers', {'m0': {'cls': 'Poll', 'p': 1.5}, 'm1': {'cls': 'Poll', 'p': 2.5}}),
     ('three-pollers', {'m0': {'cls': 'Poll'}, 'm1': {'cls': 'Poll', 'a1': 'm0', 'touch': 'init'}, 'm2': {'cls': 'Poll', 'p': 1.0}}),
     ('all-unexported', {'m0': {'cls': 'Poll', 'export': False, 'p': 1.5}, 'm1': {'cls': 'NoPoll', 'export': False}}),
+    # several configured start values, one of the write methods failing
+    ('two-writes', {'m0': {'cls': 'Poll', 'p': 1.5, 'q': 2.5}, 'm1': {'cls': 'NoPoll', 'p': 3.5, 'q': 4.5}}),
+    ('first-write-fails', {'m0': {'cls': 'Poll', 'p': 1.5, 'q': 2.5, 'wfail': 'p'}, 'm1': {'cls': 'Poll', 'p': 3.5}}),
+    ('second-write-fails', {'m0': {'cls': 'Poll', 'p': 1.5, 'q': 2.5, 'wfail': 'q'}, 'm1': {'cls': 'Poll', 'p': 3.5}}),
+    ('first-write-fails-nopoll', {'m0': {'cls': 'NoPoll', 'p': 1.5, 'q': 2.5, 'wfail': 'p'}, 'm1': {'cls': 'Poll', 'a1': 'm0', 'touch': 'init'}}),
+    ('write-fails-shared-io-thread', {'m0': {'cls': 'WithIo', 'uri': 'x://1', 'p': 1.5, 'q': 2.5, 'wfail': 'p'},
+                                      'm1': {'cls': 'WithIo', 'uri': 'x://1', 'p': 3.5, 'q': 4.5, 'wfail': 'q'}}),
+    # the communicator created from a uri is an attachment of its owner: every declaration order of user / owner
+    ('user-before-uri-owner', {'m0': {'cls': 'Poll', 'a1': 'm1', 'touch': 'init'}, 'm1': {'cls': 'WithIo', 'uri': 'x://1', 'touch': 'init'}}),
+    ('user-before-uri-owner-early', {'m0': {'cls': 'NoPoll', 'a1': 'm1', 'touch': 'early'}, 'm1': {'cls': 'WithIo', 'uri': 'x://1', 'touch': 'early'}}),
+    ('uri-owner-before-user', {'m0': {'cls': 'WithIo', 'uri': 'x://1', 'touch': 'init'}, 'm1': {'cls': 'Poll', 'a1': 'm0', 'touch': 'init'}}),
+    ('chain-to-uri-owner', {'m0': {'cls': 'Poll', 'a1': 'm1', 'touch': 'init'}, 'm1': {'cls': 'NoPoll', 'a1': 'm2', 'touch': 'early'},
+                            'm2': {'cls': 'WithIo', 'uri': 'x://2', 'touch': 'init'}}),
+    ('user-before-explicit-io-owner', {'m0': {'cls': 'Poll', 'a1': 'm1', 'touch': 'init'}, 'm1': {'cls': 'WithIo', 'io': 'io1', 'touch': 'init'},
+                                       'io1': {'cls': 'Io'}}),
+    ('two-owners-of-one-uri-user-first', {'m0': {'cls': 'Poll', 'a1': 'm2', 'a2': 'm1', 'touch': 'init'},
+                                          'm1': {'cls': 'WithIo', 'uri': 'x://1', 'touch': 'init'},
+                                          'm2': {'cls': 'WithIo', 'uri': 'x://1', 'touch': 'early'}}),
 ]
 
 
